@@ -4,6 +4,7 @@ C31 — softfork guards are isolated and always yield nil.
 Model: `ClvmModel/Interp/Machine.lean` (`applyOp`, `exitGuard`, `runLoop`).
 -/
 import ClvmModel.Interp.Machine
+import ClvmProofs.Lemmas.Interp.GuardBig
 
 namespace Clvm.Props.C31
 open Clvm Clvm.Interp
@@ -50,5 +51,40 @@ theorem guard_mismatch (s : MState) (g : SoftforkGuard) (rest : List SoftforkGua
 
 /-- the nesting limit is the generated constant 20 -/
 theorem nesting_limit : Gen.softforkNestingLimit = 20 := by decide
+
+/-- **A completed guard at program level** (`(softfork cost ext prog env)` as a whole).
+Take the `Apply` step on the softfork keyword in any state `s0` (operands `operandList`, operator and the
+saved environment on top of the stacks, anything underneath) whose arguments parse to a known extension
+`ext`, and let the main loop run until the operations this step pushed — `ExitGuard` and whatever the
+guarded program pushes, nested guards included — have been consumed (`runTo` stops the first time the
+operation stack is back to its length in `s0`).  Then, whatever happened inside:
+the state is `s0` with the operand list, the operator and the environment popped and **nil** pushed
+(every other stack entry, the softfork stack and the pending checkpoints untouched); the atom, pair and
+heap counts are exactly those at guard entry; and unless the extension is cost-exempt
+(`PreHardFork`) the cost consumed by the whole step sequence is exactly the declared cost.
+Proof: the well-bracketing theorem `runTo_bracket` of `Lemmas/Interp/BigStep.lean` + `guard_complete`. -/
+theorem guard_program_complete {cfg : Cfg} {d : Dialect} {mc : Nat} {s0 s1 s' : MState}
+    {operandList operator : Val} {W : List Val} {e0 : Val} {E : List Val} {cost m c : Nat}
+    {ext : OperatorSet} {prg env : Val} {fuel cost' fuel' : Nat}
+    (hv : s0.valStack = operandList :: operator :: W) (he : s0.envStack = e0 :: E)
+    (hna : smallNumber operator ≠ some d.applyKw) (hsk : smallNumber operator = some d.softforkKw)
+    (hparse : parseSoftforkArguments d operandList = .ok (ext, prg, env))
+    (hstep : applyOp cfg d s0 cost m = .ok (c, s1))
+    (hrun : runTo cfg d mc s0.opStack.length fuel s1 (cost + c) = some (.ok (cost', s', fuel'))) :
+    ∃ f declared, first operandList = .ok f ∧ uintAtom 8 f "softfork" d.flags = .ok declared ∧
+      s' = { s0 with valStack := Val.nil :: W, valLen := s0.valLen - 1 - 1 + 1, envStack := E,
+                     envLen := s0.envLen - 1, ctr := s'.ctr } ∧
+      s'.ctr.atoms = s0.ctr.atoms ∧ s'.ctr.pairs = s0.ctr.pairs ∧ s'.ctr.heap = s0.ctr.heap ∧
+      (ext ≠ .PreHardFork → cost' = cost + declared) :=
+  Interp.guard_program_complete hv he hna hsk hparse hstep hrun
+
+/-- every successful run that enters a guard passes through the point where that guard has completed
+(so the previous theorem applies to it), and continues from there with the rest of the fuel -/
+theorem guard_completes_in_run {cfg : Cfg} {d : Dialect} {mc L fuel : Nat} {s : MState} {cost : Nat}
+    {r : Nat × MState} (h : runLoop cfg d mc fuel s cost = some (.ok r)) :
+    ∃ cost' s' fuel', runTo cfg d mc L fuel s cost = some (.ok (cost', s', fuel')) ∧
+      runLoop cfg d mc fuel' s' cost' = some (.ok r) ∧ fuel' ≤ fuel :=
+  let ⟨c', s', f', h1, h2, h3, _⟩ := runTo_of_runLoop_ok (L := L) h
+  ⟨c', s', f', h1, h2, h3⟩
 
 end Clvm.Props.C31
